@@ -5,7 +5,7 @@
    failure, write failure, Stop) at any point, any interleaving of the goroutines. *)
 From Coq Require Import List ZArith Bool.
 Import ListNotations.
-From Goat Require Import Model.Client Model.Server Proofs.ServerProofs Proofs.ServerInv Proofs.ServerLive Proofs.ServerTrace Proofs.ServerTerm.
+From Goat Require Import Model.Client Model.Server Proofs.ServerProofs Proofs.ServerInv Proofs.ServerLive Proofs.ServerTrace Proofs.ServerTerm Proofs.ServerClosed.
 Open Scope Z_scope.
 
 (* Serve returns (Q) after Stop or a failed transport write: both end the connection context. In every reachable
@@ -60,7 +60,7 @@ Theorem C10_no_leak : forall ls s, lrun init ls = Some s ->
 Proof. intros ls s H. apply (srv_no_leak nworkers). exact (inv_reach nworkers ls s H). Qed.
 Print Assumptions C10_no_leak.
 
-(* (T) no live-lock: [measure] (12 per unread envelope + a weight per goroutine state) strictly decreases with every
+(* (T) no live-lock: [measure] (20 per unread envelope + a weight per goroutine state) strictly decreases with every
    internal step from a reachable state, so every sequence of internal steps from a reachable state is at most
    [measure s] long: once the environment (peer, handlers, faults) stops acting, the connection reaches a quiescent
    state - to which the (Q) theorems above apply *)
@@ -98,3 +98,123 @@ Example C10_ex :
             /\ serve_returned s = true
             /\ forallb h_returned (hs s) = true /\ length (hs s) = 4%nat /\ wr s = WrDead.
 Proof. eexists. vm_compute. repeat split. Qed.
+
+(* ---------- composed: trigger => Serve returns, nothing left; no Q-form hypothesis left to the reader ----------
+   The closed system: the connection together with handlers that honour their context. Its steps ([crun]) are the
+   internal rules and "a handler that is in its body returns" ([closed_at]); [final s]: no internal rule is enabled
+   and no handler whose context is done is still in its body - a handler that honours its context would return
+   there, so a state that is not final is not where such a system stops.
+   (T) every closed run from a reachable state is at most [measure s] steps long, and
+   (E) it can always be extended to a final state; so "the closed system runs until it stops" names a final state. *)
+Theorem C10_closed_terminates : forall ls s, lrun init ls = Some s ->
+  forall ls' s', crun s ls' = Some s' -> (length ls' + measure s' <= measure s)%nat.
+Proof. exact (srv_closed_runs_bounded nworkers). Qed.
+Print Assumptions C10_closed_terminates.
+
+Theorem C10_closed_reaches_final : forall ls s, lrun init ls = Some s ->
+  exists ls' s', crun s ls' = Some s' /\ final s' = true.
+Proof. exact (srv_closed_reaches_final nworkers). Qed.
+Print Assumptions C10_closed_reaches_final.
+
+(* Stop, or a failed transport write, at ANY point of ANY run (any traffic, handlers in any state, any interleaving),
+   followed by ANY continuation ls' - closed or not: more envelopes, more faults, handlers doing anything: wherever
+   that ends in a final state, Serve has returned, the context of every handler ever started is done, every handler
+   goroutine, every worker and the writer are gone, and the registry is empty. The only thing asked of the handlers is
+   in [final]: none of them sits in its body with a done context. *)
+Theorem C10_trigger_returns : forall ls s, lrun init ls = Some s ->
+  (srv_stop s = true \/ exists f, In (SvWFail f) (log s)) ->
+  forall ls' s', lrun s ls' = Some s' -> final s' = true ->
+    serve_returned s' = true
+    /\ (forall h k, nth_error (hs s') h = Some k -> hdone s' k = true)
+    /\ (forall h k, nth_error (hs s') h = Some k -> h_pc k = HDead)
+    /\ wr s' = WrDead
+    /\ (forall w p, nth_error (wk s') w = Some p -> p = WkDead)
+    /\ registry_size s' = 0%nat.
+Proof.
+  intros ls s H T. apply (srv_trigger_returns nworkers ls s H).
+  destruct T as [T | [f T]]; [unfold hctx_done; now rewrite T | exact (srv_wfail_cancels nworkers ls s H f T)].
+Qed.
+Print Assumptions C10_trigger_returns.
+
+(* a failed transport READ is seen by the next rw.Read only, and the read loop can be kept from ever getting there:
+   by a transport that blocks writes, by unary handlers that occupy every worker, by a stream handler that leaves an
+   envelope in its queue. Those are not granted by "handlers honour their context" (their contexts are not done: the
+   failure has not been seen), so for this trigger a hypothesis stays: at the final state the transport does not block
+   writes, some worker is not running a handler, and every stream handler with an envelope in its queue has returned.
+   Each of the three is needed: C10_readfail_refuted_* below. *)
+Theorem C10_trigger_returns_readfail_partial : forall ls s, lrun init ls = Some s -> inbox_failed s = true ->
+  forall ls' s', lrun s ls' = Some s' -> final s' = true ->
+    wblock s' = false ->
+    (exists w p, nth_error (wk s') w = Some p /\ forall h, p <> WkRun h) ->
+    (forall h k, nth_error (hs s') h = Some k -> h_q k <> None -> h_returned k = true) ->
+    serve_returned s' = true
+    /\ (forall h k, nth_error (hs s') h = Some k -> hdone s' k = true)
+    /\ (forall h k, nth_error (hs s') h = Some k -> h_pc k = HDead)
+    /\ wr s' = WrDead
+    /\ (forall w p, nth_error (wk s') w = Some p -> p = WkDead)
+    /\ registry_size s' = 0%nat.
+Proof.
+  intros ls s H Hf ls' s' Hr F B W Q.
+  apply (srv_trigger_returns_readfail nworkers ls s ltac:(unfold nworkers; auto with arith) H Hf ls' s' Hr F).
+  unfold rd_not_kept. auto.
+Qed.
+Print Assumptions C10_trigger_returns_readfail_partial.
+
+(* the three hypotheses of the read-failure form cannot be dropped: final states after a read failure in which Serve
+   has not returned. (a) nine unary requests, the eight handlers stay in their bodies (contexts live), the ninth is on
+   offer; (b) a stream handler that never receives: one message queued, the read loop holds the next (and the
+   registry lock); (c) a transport that blocks writes: the writer holds one reset, the read loop the next *)
+Definition rf_a : list act := map (fun i => ADeliver (ex_req (Z.of_nat i) (MUnary 1) (Some 5))) (seq 1 9) ++ [AFailRead].
+Definition rf_b : list act :=
+  [ADeliver (ex_req 1 (MStream 3) None); ADeliver (ex_req 1 (MStream 3) (Some 7)); ADeliver (ex_req 1 (MStream 3) (Some 8)); AFailRead].
+Definition rf_c : list act :=
+  [ABlockWrites true; ADeliver (ex_req 5 (MStream 3) (Some 7)); ADeliver (ex_req 6 (MStream 3) (Some 8)); AFailRead].
+Definition st_of (acts : list act) : state := match lrun init (labels_of acts) with Some s => s | None => init end.
+Definition closed_end (s : state) : state := match crun s (closed_labels 200 s) with Some s' => s' | None => s end.
+Definition no_full_queue (s : state) : bool := forallb (fun k => match h_q k with None => true | Some _ => h_returned k end) (hs s).
+Definition free_worker (s : state) : bool := existsb (fun p => match p with WkRun _ => false | _ => true end) (wk s).
+
+Example C10_readfail_refuted_workers :
+  exists s, lrun init (labels_of rf_a) = Some s /\ final s = true /\ inbox_failed s = true /\ serve_returned s = false
+            /\ wblock s = false /\ no_full_queue s = true /\ free_worker s = false /\ length (hs s) = 8%nat.
+Proof. exists (st_of rf_a). vm_compute. repeat split. Qed.
+Example C10_readfail_refuted_queue :
+  exists s, lrun init (labels_of rf_b) = Some s /\ final s = true /\ inbox_failed s = true /\ serve_returned s = false
+            /\ wblock s = false /\ no_full_queue s = false /\ free_worker s = true.
+Proof. exists (st_of rf_b). vm_compute. repeat split. Qed.
+Example C10_readfail_refuted_wblock :
+  exists s, lrun init (labels_of rf_c) = Some s /\ final s = true /\ inbox_failed s = true /\ serve_returned s = false
+            /\ wblock s = true /\ no_full_queue s = true /\ free_worker s = true.
+Proof. exists (st_of rf_c). vm_compute. repeat split. Qed.
+
+(* non-vacuity of the composed theorems. Stop with four handlers in flight (ex_acts above: one parked in RecvMsg, two
+   on their context, one in its body): the closed system runs 30-odd steps to a final state with everything gone *)
+Example C10_trigger_ex :
+  exists s ls' s', lrun init (labels_of ex_acts) = Some s /\ srv_stop s = true /\ serve_returned s = false
+    /\ ls' = closed_labels 200 s /\ crun s ls' = Some s' /\ final s' = true
+    /\ serve_returned s' = true /\ length (hs s') = 4%nat /\ forallb (fun k => match h_pc k with HDead => true | _ => false end) (hs s') = true
+    /\ Nat.leb 10 (length ls') = true /\ Nat.leb (length ls') (measure s) = true.
+Proof. exists (st_of ex_acts), (closed_labels 200 (st_of ex_acts)), (closed_end (st_of ex_acts)). vm_compute. repeat split. Qed.
+
+(* ... a failed write: a stream handler's message is refused by the transport *)
+Definition wf_acts : list act :=
+  [ ADeliver (ex_req 1 (MStream 3) None); ADeliver (ex_req 3 (MUnary 1) (Some 5)); AHandlerStep 1 HAwaitCtx;
+    ASetWriteFail true; AHandlerStep 0 (HSend 9) ].
+Example C10_trigger_wfail_ex :
+  exists s ls' s', lrun init (labels_of wf_acts) = Some s /\ srv_stop s = false
+    /\ existsb (fun e => match e with SvWFail _ => true | _ => false end) (log s) = true
+    /\ ls' = closed_labels 200 s /\ crun s ls' = Some s' /\ final s' = true
+    /\ serve_returned s' = true /\ length (hs s') = 2%nat /\ wr s' = WrDead.
+Proof. exists (st_of wf_acts), (closed_labels 200 (st_of wf_acts)), (closed_end (st_of wf_acts)). vm_compute. repeat split. Qed.
+
+(* ... and a read failure with a stream handler parked in RecvMsg and a unary handler on its context: the hypotheses
+   of the read-failure form hold at the final state *)
+Definition rf_ok : list act :=
+  [ ADeliver (ex_req 1 (MStream 3) None); ADeliver (ex_req 3 (MUnary 1) (Some 5)); AHandlerStep 0 HRecv;
+    AHandlerStep 1 HAwaitCtx; AFailRead ].
+Example C10_trigger_readfail_ex :
+  exists s ls' s', lrun init (labels_of rf_ok) = Some s /\ inbox_failed s = true
+    /\ ls' = closed_labels 200 s /\ crun s ls' = Some s' /\ final s' = true
+    /\ wblock s' = false /\ free_worker s' = true /\ no_full_queue s' = true
+    /\ serve_returned s' = true /\ length (hs s') = 2%nat /\ wr s' = WrDead.
+Proof. exists (st_of rf_ok), (closed_labels 200 (st_of rf_ok)), (closed_end (st_of rf_ok)). vm_compute. repeat split. Qed.
